@@ -37,7 +37,7 @@ META = {
     "reach": False,
 }
 SIZES = {
-    "quick": dict(pairs_per_group=8, explore_shards=10, gran="line", two=0, three=0, stress_threads=8, stress_rounds=30, cold=3, budget=4000),
+    "quick": dict(pairs_per_group=8, explore_shards=10, gran="line", two=0, three=0, stress_threads=8, stress_rounds=30, cold=3, budget=3000),
     "thorough": dict(pairs_per_group=30, explore_shards=14, gran="instr", two=150, three=40, stress_threads=16, stress_rounds=200, cold=24, budget=60000),
 }
 _POOL = {}
@@ -115,16 +115,20 @@ def plan(tier, seed):
     for i in range(2 if tier == "quick" else 6):
         sh.append({"kind": "stress", "part": i, "tier": tier, "inject": tier == "thorough" and i % 2 == 1, "_name": f"stress-{i}"})
     types = [("valid", "burst"), ("generate", "burst"), ("twin", "burst"), ("valid", "valid"), ("generate", "valid"), ("valid", "generate"), ("generate", "generate"), ("twin", "valid"), ("valid", "twin")]
-    nf = 3 if tier == "quick" else 9
+    nf = 9
     for i in range(nf):
         sh.append({"kind": "fresh", "type_pairs": types[i::nf], "tier": tier, "_name": f"fresh-explore-{i}"})
     sh.append({"kind": "solo", "tier": tier, "_name": "solo"})
     for i in range(sz["cold"]):
         sh.append({"kind": "cold", "part": i, "tier": tier, "_name": f"cold-{i}"})
-    trials = coldsched_trials(p, tier)
-    per = 3 if tier == "quick" else 4
+    trials = coldsched_trials(p, tier) + coldfirst_trials(p, tier)
+    per = 6 if tier == "quick" else 12
     for i in range(0, len(trials), per):
         sh.append({"kind": "coldsched", "trials": trials[i : i + per], "tier": tier, "_name": f"coldsched-{i // per}"})
+    cf = coldfocus_trials(p, tier)
+    per = 2 if tier == "quick" else 8
+    for i in range(0, len(cf), per):
+        sh.append({"kind": "coldfocus", "trials": cf[i : i + per], "tier": tier, "_name": f"coldfocus-{i // per}"})
     for s_ in sh:
         s_["pool_file"] = pf
     sh[0]["_cleanup"] = [pf]
@@ -140,6 +144,49 @@ def run_explore(shard, mon, S, p):
 
     sz = SIZES[shard["tier"]]
     gran = shard["gran"]
+    if shard["_name"].endswith("-0") and gran == "line":
+        # algorithms that the library registers but the references do not know (new countries / methods): they
+        # are still explored against their own solo outcomes
+        try:
+            from schwifty.checksum import algorithms  # noqa: PLC0415
+            from vf import gen as G0  # noqa: PLC0415
+            from vf.ref import data as D0, germany as GE0, iban as R0, lookup as L0, national as N0  # noqa: PLC0415
+
+            table0 = D0.countries()
+            rng0 = env.rng("C14", "unknown-algorithms")
+            extra = []
+            for key in sorted(algorithms):
+                cc0, _, name0 = key.partition(":")
+                if name0 == "default" and cc0 in table0 and cc0 not in N0.LENGTHS and cc0 != "DE":
+                    ds = [{"fn": "iban", "text": R0.make_iban(cc0, G0.random_bban(table0[cc0], rng0)), "kw": {"validate_bban": True}, "grp": f"nat-unknown:{cc0}"} for _ in range(2)]
+                    # texts the library itself considers nationally valid (drawn by the library, kept if they pass)
+                    from random import Random as Rnd0  # noqa: PLC0415
+
+                    for k0 in range(40):
+                        try:
+                            t0 = str(S.IBAN.random(cc0, random=Rnd0(f"unk/{cc0}/{k0}"), use_registry=False))
+                            S.IBAN(t0, validate_bban=True)
+                        except Exception:  # noqa: BLE001
+                            continue
+                        ds.append({"fn": "iban", "text": t0, "kw": {"validate_bban": True}, "grp": f"nat-unknown:{cc0}"})
+                        if len(ds) >= 5:
+                            break
+                    ds.append({"fn": "random", "country": cc0, "seed": "u1", "use_registry": False, "kw": {}, "grp": f"nat-unknown:{cc0}"})
+                    extra.append(ds)
+                elif cc0 == "DE" and name0 not in GE0.METHODS and name0 != "default":
+                    ds = [{"fn": "algo", "key": key, "components": ["".join(rng0.choice(R0.DIGITS) for _ in range(10))], "grp": f"algo-unknown:{key}"} for _ in range(3)]
+                    extra.append(ds)
+            shard = dict(shard)
+            shard["pairs"] = list(shard["pairs"])
+            for ds in extra:
+                base_i = len(p)
+                p.extend(ds)
+                idxs = list(range(base_i, base_i + len(ds)))
+                allp = [("algo-unknown", a, b) for a in reversed(idxs) for b in reversed(idxs) if a != b]
+                shard["pairs"] = allp[:8] + shard["pairs"]
+                mon.tally("algorithms_unknown_to_reference_explored")
+        except Exception as e:  # noqa: BLE001
+            mon.notes["unknown_algorithms"] = repr(e)[:200]
     ids = sorted({i for _, a, b in shard["pairs"] for i in (a, b)})
     before = solo_digests(S, p, ids)
     sched = Scheduler(env.PKG, gran)
@@ -147,7 +194,7 @@ def run_explore(shard, mon, S, p):
     rng = env.rng("C14", shard["_name"])
     traces = set()
     budget = sz["budget"] if gran == "line" else max(2000, sz["budget"] // 3)
-    order = sorted(shard["pairs"], key=lambda x: 0 if x[0].startswith("multi") else 1 if x[0].startswith(("algo", "api", "nat")) else 2)
+    order = sorted(shard["pairs"], key=lambda x: 0 if x[0].startswith(("multi", "algo-unknown")) else 1 if x[0].startswith(("algo", "api", "nat")) else 2)
     try:
         for name, a, b in order:
             if mon.evaluations >= budget:
@@ -354,7 +401,7 @@ def run_fresh_explore(shard, mon, S, p):
 
     sched = Scheduler(env.PKG, "line")
     sched.install()
-    reps = 3 if shard["tier"] == "quick" else 40
+    reps = 2 if shard["tier"] == "quick" else 40
     try:
         for ka, kb in shard["type_pairs"]:
             for _ in range(1 if (kb == "burst" and shard["tier"] == "quick") else reps):
@@ -430,6 +477,16 @@ def fresh_stress(shard, mon, S):
             except Exception as e:  # noqa: BLE001
                 bad.append((f"from_bban({cc},{b})", good, repr(e)[:120]))
             done[t] += 1
+            if _ % 3 == 0:
+                # an unseeded draw (own generator inside the library): a valid IBAN of the country or the overflow error
+                try:
+                    drawn = str(S.IBAN.random(cc))
+                    if R_.expect_iban(drawn, table).verdict != R_.ACCEPT or drawn[:2] != cc:
+                        bad.append((f"random({cc})", "valid IBAN", drawn))
+                except Exception as e:  # noqa: BLE001
+                    if type(e).__name__ != "GenerateRandomOverflowError" and "GenerateRandomOverflowError" not in [c_.__name__ for c_ in type(e).__mro__]:
+                        bad.append((f"random({cc})", "valid IBAN or GenerateRandomOverflowError", repr(e)[:120]))
+                done[t] += 1
 
     ts = [threading.Thread(target=body, args=(t,), daemon=True) for t in range(n_threads)]
     for t in ts:
@@ -464,6 +521,46 @@ def cold_ids(p, part):
 
 
 COLD_K = [1, 2, 3, 5, 8, 13, 21, 34, 55, 89, 144, 233, 377, 610, 987, 1597, 2584, 4181, 6765, 10946, 17711, 28657, 46368, 75025, 121393, 196418]
+
+
+def coldfirst_trials(p, tier):
+    """First use of every algorithm family in a fresh process: call a is preempted after K lines of its very
+    first execution, call b (same algorithm, other behaviour class) runs to completion, a resumes."""
+    rng = env.rng("C14", "coldfirst")
+    g = groups_of(p)
+    out = []
+    for name in sorted(g):
+        if not name.startswith(("algo:DE:", "nat:")):
+            continue
+        ids = [i for i in g[name] if p[i]["fn"] in ("algo", "iban") and not any(ch not in "0123456789" for ch in (p[i].get("components") or ["0"])[0])]
+        if len(ids) < 2:
+            continue
+        ks = [rng.randrange(2, 70)] if tier == "quick" else list(range(1, 90))
+        for k in ks:
+            a, b = rng.sample(ids, 2)
+            out.append((a, b, k))
+    return out
+
+
+def coldfocus_trials(p, tier):
+    """[(K, [(a, b), ...]), ...]: one fresh process per K runs one pair of every algorithm family; call a is
+    preempted at the K-th step it executes *inside the checksum modules* (wherever in the call that is), call b
+    (same algorithm, another behaviour class) runs to completion, a resumes.  The step count is taken by the
+    scheduler's monitor at run time, so K indexes into the algorithm's own code for `algo` and `iban` calls
+    alike."""
+    rng = env.rng("C14", "coldfocus")
+    g = groups_of(p)
+    fams = []
+    for name in sorted(g):
+        if not name.startswith(("algo:DE:", "nat:", "api:DE:")):
+            continue
+        ids = [i for i in g[name] if p[i]["fn"] in ("algo", "iban")]
+        if len(ids) >= 2:
+            fams.append(ids)
+    out = []
+    for k in (range(1, 33) if tier == "quick" else range(1, 161)):
+        out.append((k, [tuple(rng.sample(ids, 2)) for ids in fams]))
+    return out
 
 
 def coldsched_trials(p, tier):
@@ -560,9 +657,59 @@ def run_coldsched(shard, mon, S, p):
         mon.sample({"cold_scheduled_trial": {"first_call": p[a], "second_call": p[b], "preempt_first_after_lines": k}})
 
 
+def run_coldfocus(shard, mon, S, p):
+    """One child interpreter per K; in it every algorithm family is used for the first time under a schedule
+    that preempts the first caller at its K-th step inside the checksum modules."""
+    import subprocess  # noqa: PLC0415
+
+    code = (
+        "import sys, json\n"
+        "from vf import env, calls, judge\n"
+        "from vf.mon.sched import Scheduler\n"
+        "S = judge.lib()\n"
+        "calls.capture_warnings()\n"
+        "p = json.load(open(sys.argv[1]))\n"
+        "k = int(sys.argv[2]); pairs = json.loads(sys.argv[3])\n"
+        "s = Scheduler(env.PKG, 'line'); s.install()\n"
+        "out = []\n"
+        "for a, b in pairs:\n"
+        "    r = s.run([lambda: calls.execute(S, p[a]), lambda: calls.execute(S, p[b])], first=0, focus='/checksum/', preempt_focus={(0, k)}, timeout=60)\n"
+        "    out.append({'results': r['results'], 'focus_steps': r['focus_steps'], 'switches': r['switches'], 'degraded': r['degraded'], 'hung': r['hung']})\n"
+        "    if r['hung']:\n"
+        "        break\n"
+        "s.uninstall()\n"
+        "print(json.dumps(out))\n"
+    )
+    e = dict(os.environ, PYTHONPATH=env.VERIF, PYTHONHASHSEED="0", PYTHONDONTWRITEBYTECODE="1")
+    for k, pairs in shard["trials"]:
+        try:
+            pr = subprocess.run([env.PY, "-c", code, shard["pool_file"], str(k), json.dumps(pairs)], env=e, capture_output=True, text=True, timeout=600)
+            docs = json.loads(pr.stdout.strip().splitlines()[-1])
+        except Exception as ex:  # noqa: BLE001
+            mon.inconclusive.append(f"first-use trial process did not finish: {ex!r}"[:200])
+            continue
+        for (a, b), doc in zip(pairs, docs):
+            mon.ev()
+            mon.tally("first_use_trials")
+            if doc["hung"]:
+                mon.inconclusive.append("first-use trial hung")
+                continue
+            if doc["focus_steps"][0] >= k and doc["switches"]:
+                # the preemption point was reached: the first caller was suspended inside the checksum modules
+                mon.tally("first_use_trials_preempted_inside_algorithm")
+                mon.distinct(("coldfocus", a, b, k))
+            for w_, i in enumerate((a, b)):
+                out = doc["results"][w_]
+                mon.notes.setdefault("outcome_list", []).append([str(i), calls.digest(out), json.dumps(out, default=str)[:200], f"{shard['_name']}:focus-k={k}"])
+    if shard["trials"]:
+        k, pairs = shard["trials"][0]
+        a, b = pairs[0]
+        mon.sample({"first_use_trial": {"first_call": p[a], "second_call": p[b], "preempt_first_at_step_inside_checksum_modules": k}})
+
+
 def run_solo(shard, mon, S, p):
     sz = SIZES[shard["tier"]]
-    ids = sorted({i for k in range(sz["cold"]) for i in cold_ids(p, k)} | {i for a, b, _ in coldsched_trials(p, shard["tier"]) for i in (a, b)})
+    ids = sorted({i for k in range(sz["cold"]) for i in cold_ids(p, k)} | {i for a, b, _ in coldsched_trials(p, shard["tier"]) + coldfirst_trials(p, shard["tier"]) for i in (a, b)} | {i for _, prs in coldfocus_trials(p, shard["tier"]) for ab in prs for i in ab})
     outs = {i: calls.execute(S, p[i]) for i in ids}
     mon.ev(len(ids))
     mon.distinct(("solo", len(ids)))
@@ -575,7 +722,7 @@ def run_shard(shard, out_base):
     S = judge.lib()
     calls.capture_warnings()
     p = the_pool(shard["tier"], shard.get("pool_file"))
-    {"explore": run_explore, "stress": run_stress, "cold": run_cold, "solo": run_solo, "coldsched": run_coldsched, "fresh": run_fresh_explore}[shard["kind"]](shard, mon, S, p)
+    {"explore": run_explore, "stress": run_stress, "cold": run_cold, "solo": run_solo, "coldsched": run_coldsched, "coldfocus": run_coldfocus, "fresh": run_fresh_explore}[shard["kind"]](shard, mon, S, p)
     return mon.result(out_base)
 
 
